@@ -293,6 +293,8 @@ func (wsc *connection) runReadLoop(nextMsg chan connMsg) {
 	for {
 		msg.mt, msg.message, msg.err = wsc.Conn.ReadMessage()
 
+		verifAt("read.returned", wsc)
+
 		if msg.err != nil {
 			if wsc.hasConnState(ConnStateClosed) && errors.Is(msg.err, net.ErrClosed) {
 				// healthy close
@@ -307,6 +309,8 @@ func (wsc *connection) runReadLoop(nextMsg chan connMsg) {
 				wsc.setConnState(ConnStateError)
 			}
 		}
+
+		verifAt("before.send", wsc)
 
 		nextMsg <- msg
 
